@@ -31,6 +31,7 @@ from fedjax.core.typing import PyTree
 
 import jax
 import jax.numpy as jnp
+import numpy as np
 
 # Shared input that is passed to the client init that is shared across all
 # clients. For example, this could be the shared global model parameters that
@@ -263,6 +264,33 @@ def _blockify(clients: Iterable[Tuple[ClientId, Iterable[BatchExample],
         client_input=[client_input for _, _, client_input in block])
 
 
+def _device_put_sharded(shards: Sequence[PyTree], devices: Sequence[Any]):
+  """Stacks one shard per device along a new leading axis.
+
+  Stand-in for jax.device_put_sharded, which newer JAX releases removed.
+  """
+  if hasattr(jax, 'device_put_sharded'):
+    return jax.device_put_sharded(shards, devices)
+  mesh = jax.sharding.Mesh(np.array(devices), ('clients',))
+  sharding = jax.sharding.NamedSharding(
+      mesh, jax.sharding.PartitionSpec('clients'))
+
+  def stack(*xs):
+    xs = [jnp.asarray(x) for x in xs]
+    buffers = [jax.device_put(x[None], d) for x, d in zip(xs, devices)]
+    return jax.make_array_from_single_device_arrays(
+        (len(xs),) + xs[0].shape, sharding, buffers)
+
+  return jax.tree_util.tree_map(stack, *shards)
+
+
+def _device_put_replicated(x: PyTree, devices: Sequence[Any]):
+  """Stand-in for jax.device_put_replicated (removed in newer JAX)."""
+  if hasattr(jax, 'device_put_replicated'):
+    return jax.device_put_replicated(x, devices)
+  return _device_put_sharded([x] * len(devices), devices)
+
+
 class ForEachClientPmapBackend(ForEachClientBackend):
   """for_each_client backend using jax.pmap for parallelization."""
 
@@ -308,21 +336,21 @@ class ForEachClientPmapBackend(ForEachClientBackend):
     p_client_final = jax.pmap(client_final, donate_argnums=1)
 
     def run_block(p_shared_input, block):
-      p_client_input = jax.device_put_sharded(block.client_input, devices)
+      p_client_input = _device_put_sharded(block.client_input, devices)
       p_state = p_client_init(p_shared_input, p_client_input)
       p_step_results = []
       for p_batch, p_mask in block.masked_batches:
         p_state, p_step_result = p_client_step(
             p_state,
-            jax.device_put_sharded(p_batch, devices),
-            jax.device_put_sharded(p_mask, devices),
+            _device_put_sharded(p_batch, devices),
+            _device_put_sharded(p_mask, devices),
         )
         p_step_results.append(p_step_result)
       p_client_output = p_client_final(p_shared_input, p_state)
       return p_client_output, p_step_results
 
     def run(shared_input, clients):
-      p_shared_input = jax.device_put_replicated(shared_input, devices)
+      p_shared_input = _device_put_replicated(shared_input, devices)
       for block in _blockify(clients, block_size):
         p_client_output, p_step_results = run_block(p_shared_input, block)
         # Split outputs and release buffers as we go.
